@@ -291,7 +291,7 @@ Definition ok : reply := mkReply OOk false vgen.
 Definition fl : reply := mkReply OFail false vgen.
 Definition bad : reply := mkReply OFail false (mkVal VBadConn MBare).
 Definition pn : reply := mkReply OPanic false vgen.
-Definition sc_of (steps : list step) (f : fin) : script := mkScript true false true true 1 [] steps f 0.
+Definition sc_of (steps : list step) (f : fin) : script := mkScript true false false true true 1 [] steps f 0.
 
 (* three statements, the second fails in the driver and the body returns that error; the
    rollback fails too *)
@@ -328,7 +328,7 @@ Proof. vm_compute. auto. Qed.
 Example ex_cancelled_during_begin :
   let W := exec true [sc_of [st MExec FStop] RNil] [0; 0; 0]%nat [mkReply OOk true vgen] in
   wlog W = [mkEnt 0 1 CBegin OOk vgen; mkEnt 0 1 CRollback OOk vgen] /\
-  map tst (wthreads W) = [TDone (mkRes 1 (Some (BErr (BCtx 0))) (RetErr (EBody (BCtx 0))) false)].
+  map tst (wthreads W) = [TDone (mkRes 1 (Some (BErr (BCtx 0 false))) (RetErr (EBody (BCtx 0 false))) false)].
 Proof. vm_compute. auto. Qed.
 
 (* a body that swallows statement errors COMMITS although its context is cancelled (the transaction
@@ -351,9 +351,9 @@ Proof. vm_compute. auto. Qed.
    the body of the first (its quanta 2,2,2 lie inside transaction 0): each on its own connection,
    each ended once *)
 Example ex_interleaved_and_nested :
-  let scs := [mkScript true false true true 1 [] [st MExec FStop; mkStep ANop FStop; st MExec FStop] (RErr vgen) 0;
-              mkScript false false true true 2 [] [st MQuery FStop] RNil 0;
-              mkScript true false true true 3 [] [st MExec FStop] RPanic 0] in
+  let scs := [mkScript true false false true true 1 [] [st MExec FStop; mkStep ANop FStop; st MExec FStop] (RErr vgen) 0;
+              mkScript false false false true true 2 [] [st MQuery FStop] RNil 0;
+              mkScript true false false true true 3 [] [st MExec FStop] RPanic 0] in
   let W := exec true scs [0; 1; 0; 0; 2; 2; 2; 1; 0; 0; 1]%nat [] in
   proj 0 (wlog W) = [mkEnt 0 1 CBegin OOk vgen; mkEnt 0 1 (CStmt 0 KExec) OOk vgen; mkEnt 0 1 (CStmt 2 KExec) OOk vgen; mkEnt 0 1 CRollback OOk vgen] /\
   proj 1 (wlog W) = [mkEnt 1 2 CBegin OOk vgen; mkEnt 1 2 (CStmt 0 KQuery) OOk vgen; mkEnt 1 2 CCommit OOk vgen] /\
@@ -382,7 +382,7 @@ Proof. vm_compute. auto. Qed.
 (* Begin answered driver.ErrBadConn twice: database/sql repeats it on other connections (7, 8); the
    transaction's own trace starts at the Begin that stood, on connection 9 *)
 Example ex_begin_repeated_by_database_sql :
-  let W := exec true [mkScript true false true true 9 [7; 8] [st MExec FStop] RNil 0] [0; 0; 0]%nat [bad; bad] in
+  let W := exec true [mkScript true false false true true 9 [7; 8] [st MExec FStop] RNil 0] [0; 0; 0]%nat [bad; bad] in
   wlog W = [mkEnt 0 7 CBeginRetry OFail (mkVal VBadConn MBare); mkEnt 0 8 CBeginRetry OFail (mkVal VBadConn MBare);
             mkEnt 0 9 CBegin OOk vgen; mkEnt 0 9 (CStmt 0 KExec) OOk vgen; mkEnt 0 9 CCommit OOk vgen] /\
   proj 0 (wlog W) = [mkEnt 0 9 CBegin OOk vgen; mkEnt 0 9 (CStmt 0 KExec) OOk vgen; mkEnt 0 9 CCommit OOk vgen].
